@@ -29,6 +29,7 @@ type Step struct {
 	Value   json.RawMessage `json:"value,omitempty"`
 	Hex     string          `json:"hex,omitempty"`
 	Consume int             `json:"consume,omitempty"`
+	Tail    string          `json:"tail,omitempty"` // newbuf: bytes placed in the spare capacity behind the content
 	Ctor    bool            `json:"ctor,omitempty"`
 	Fn      string          `json:"fn,omitempty"`
 	Args    []json.RawMessage `json:"args,omitempty"`
@@ -323,8 +324,10 @@ func (e *env) run(st Step) (res Result) {
 			return
 		}
 		// exact control over the backing array: len(b) bytes, st.N spare bytes of capacity
-		back := make([]byte, len(b), len(b)+st.N)
+		tail, _ := hex.DecodeString(st.Tail)
+		back := make([]byte, len(b), len(b)+len(tail)+st.N)
 		copy(back, b)
+		copy(back[len(b):cap(back)], tail)
 		buf := bytes.NewBuffer(back)
 		if st.Consume > 0 {
 			buf.Next(st.Consume)
